@@ -184,3 +184,19 @@ fn c03q_const_agree_len2() { check_const_agree::<2>(); }
 #[kani::proof]
 #[kani::unwind(8)]
 fn c03t_const_agree_len3() { check_const_agree::<3>(); }
+
+/// "No expression text, however malformed, makes the shell panic" -- for the constant parser: a token
+/// starts with an ASCII digit and continues with arbitrary alphanumerics, which may be multi-byte.
+/// Every UTF-8 text of <= 3 bytes that starts with a digit is tried.
+#[kani::proof]
+#[kani::unwind(8)]
+fn c03q_const_parse_no_panic() {
+    let buf: [u8; 3] = kani::any();
+    let len: usize = kani::any();
+    kani::assume(len >= 1 && len <= 3);
+    kani::assume(buf[0].is_ascii_digit());
+    if let Ok(s) = std::str::from_utf8(&buf[..len]) {
+        let r = crate::token::parse_integer_constant(s);
+        std::mem::forget(r);
+    }
+}
